@@ -250,6 +250,37 @@ def fromPairs (l : List (K × V)) : OMD K V := (empty : OMD K V).addAll l
 
 def copy (s : OMD K V) : OMD K V := fromPairs s.itemsM
 
+/-- `fromkeys(keys, default)`: `cls([(k, default) for k in keys])` (a repeated key gets the value again) -/
+def fromkeys (ks : List K) (d : V) : OMD K V := fromPairs (ks.map fun k => (k, d))
+
+/-! the view objects `viewkeys()` / `viewvalues()` / `viewitems()` = `collections.abc.KeysView(self)` … : they keep a
+    reference to the dictionary and every use reads its CURRENT state through the public readers -/
+
+/-- `iter(KeysView(omd))` = `iter(omd)`; `len(view)` = `len(omd)` (all three views); `k in view` = `k in omd` -/
+def viewKeysIter (s : OMD K V) : List K := s.iter
+def viewLen (s : OMD K V) : Nat := s.len
+def viewKeysContains (s : OMD K V) (k : K) : Bool := s.contains k
+
+/-- `iter(ValuesView(omd))`: `for key in self._mapping: yield self._mapping[key]` -/
+def viewValuesIter (s : OMD K V) : Except Err (List V) := mapE (fun k => s.getitem k) s.iter
+
+/-- `iter(ItemsView(omd))`: `for key in self._mapping: yield (key, self._mapping[key])` -/
+def viewItemsIter (s : OMD K V) : Except Err (List (K × V)) :=
+  mapE (fun k => match s.getitem k with | .error e => .error e | .ok v => .ok (k, v)) s.iter
+
+/-- `(k, v) in ItemsView(omd)`: `try: x = self._mapping[k]  except KeyError: False  else: x is v or x == v` -/
+def viewItemsContains [DecidableEq V] (s : OMD K V) (k : K) (v : V) : Except Err Bool :=
+  match s.getitem k with
+  | .error .keyError => .ok false
+  | .error e => .error e
+  | .ok x => .ok (decide (x = v))
+
+/-- `v in ValuesView(omd)`: `for key in self._mapping: x = self._mapping[key]; if x is v or x == v: return True` -/
+def viewValuesContains [DecidableEq V] (s : OMD K V) (v : V) : Except Err Bool :=
+  match s.viewValuesIter with
+  | .error e => .error e
+  | .ok l => .ok (decide (v ∈ l))
+
 /-- `setdefault(k, default)` (an omitted default is the value `None`, chosen by the caller) -/
 def setdefault (s : OMD K V) (k : K) (v : V) : OMD K V × Out K V :=
   let s' := if dhas k s.vals then s else s.setitem k v
@@ -296,6 +327,11 @@ def popitem (s : OMD K V) : OMD K V × Out K V :=
     | some p => match s.pop p.1 false with
       | (s', .val v) => (s', .pair p.1 v)
       | (s', o) => (s', o)
+
+/-- `__repr__`: `'%s([%s])' % (cn, ', '.join([repr((k, v)) for k, v in self.iteritems(multi=True)]))`, with the
+    class name and the `repr` of keys and values as parameters -/
+def reprText (cn : String) (rk : K → String) (rv : V → String) (s : OMD K V) : String :=
+  cn ++ "([" ++ ", ".intercalate (s.itemsM.map fun p => "(" ++ rk p.1 ++ ", " ++ rv p.2 ++ ")") ++ "])"
 
 /-! derived containers -/
 
@@ -347,6 +383,21 @@ def eqMapLoop [DecidableEq V] (s : OMD K V) (m : List (K × V)) : List K → Exc
 def eqMapping [DecidableEq V] (s : OMD K V) (m : List (K × V)) : Except Err Bool :=
   if m.length ≠ s.len then .ok false else eqMapLoop s m s.keys
 
+/-- the mapping loop of `__eq__` as it was BEFORE the fix of round 3 (`other[k]` alone, no membership test), for a
+    mapping whose `__missing__` answers `z` for every key it lacks (`collections.Counter`: `some 0`; a `defaultdict`;
+    `none` = an ordinary mapping, `other[k]` raises KeyError).  Kept to state what the fix changed. -/
+def eqMapLoopOld [DecidableEq V] (s : OMD K V) (m : List (K × V)) (z : Option V) : List K → Except Err Bool
+  | [] => .ok true
+  | k :: r => match (dget k m).orElse (fun _ => z) with
+    | none => .ok false
+    | some mv => match s.getitem k with
+      | .error .keyError => .ok false
+      | .error e => .error e
+      | .ok v => if mv ≠ v then .ok false else eqMapLoopOld s m z r
+
+def eqMappingOld [DecidableEq V] (s : OMD K V) (m : List (K × V)) (z : Option V) : Except Err Bool :=
+  if m.length ≠ s.len then .ok false else eqMapLoopOld s m z s.keys
+
 /-- `__ne__`: `not (self == other)` -/
 def neOMD [DecidableEq V] (s t : OMD K V) : Bool := !s.eqOMD t
 
@@ -385,6 +436,11 @@ inductive HOp (K V : Type) where
   | addlistAbort (k : K) (vs : List V)            -- `v = list(v)` raises before anything is touched
   | updateAbort (l : List (K × V))                -- the `seen` loop of `update` has taken over `l`
   | updateExtendAbort (l : List (K × V))          -- the `add` loop of `update_extend` has taken over `l`
+  -- the argument is a mapping whose `keys()` / `__getitem__` raises after the items `l` were delivered:
+  | updateMapAbort (l : List (K × V))             -- the loop `for k in E.keys(): self[k] = E[k]` has assigned `l`
+  -- the call raised before it touched anything (unhashable key, an argument that is not iterable, too many
+  -- arguments): the first statement that looks at the argument is the one that raises
+  | rejected
   | copyToT      -- t = s.copy() / copy.copy(s) / copy.deepcopy(s) / pickle round trip
   | copyToS      -- s = the same
   | swap
@@ -427,6 +483,8 @@ def hstep (st : HState K V) : HOp K V → HState K V × Out K V
   | .addlistAbort _ _ => (st, .abort)
   | .updateAbort l => (⟨st.s.updPairs [] l, st.t⟩, .abort)
   | .updateExtendAbort l => (⟨st.s.addAll l, st.t⟩, .abort)
+  | .updateMapAbort l => (⟨st.s.setAll l, st.t⟩, .abort)
+  | .rejected => (st, .abort)
   | .copyToT => (⟨st.s, st.s.copy⟩, .unit)
   | .copyToS => (⟨st.s.copy, st.t⟩, .unit)
   | .swap => (⟨st.t, st.s⟩, .unit)
